@@ -9,3 +9,15 @@ package config
 //@   ensures kdcs != nil
 //@   loop 1 invariant (l == len(ks) || l == 0) && l >= 0 && fresh(ks) && ref(ks) != 0
 //@   loop 1 decreases l
+
+//@ func config.parseDuration(s) (d, err)
+//@   loop 1 invariant len(i) == rangeindex + 1
+
+// NewFromScanner splits the file into sections with bufio.Scanner and regexp (text scanning, outside the
+// subset): the recorded section offsets are positions in `lines`, so start <= end <= len(lines); that
+// needs a quantified invariant over a loop driven by an external iterator and is assumed, as is the
+// termination of scanner.Scan() on a finite input.
+//@ assume_obligation config.NewFromScanner#slice:err := c.LibDefaults.parseLines(lines[start:end]) :: section offsets recorded by the scanner loop are ordered positions in lines (text scanning not modelled)
+//@ assume_obligation config.NewFromScanner#slice:realms, err := parseRealms(lines[start:end]) :: section offsets recorded by the scanner loop are ordered positions in lines (text scanning not modelled)
+//@ assume_obligation config.NewFromScanner#slice:err := c.DomainRealm.parseLines(lines[start:end]) :: section offsets recorded by the scanner loop are ordered positions in lines (text scanning not modelled)
+//@ assume_obligation config.NewFromScanner#term:loop1 :: bufio.Scanner.Scan terminates on a finite input (external iterator)
